@@ -112,6 +112,10 @@ var remoteCopy = func(src, dst string, fileSet map[string]struct{}) error {
 	}()
 
 	if err := cmd.Wait(); err != nil {
+		// Files that arrived before the failure must not stay writable: a
+		// later fetch only transfers what is still missing and would never
+		// fix their permissions.
+		_ = setFilePerms(dst, fileSet, cacheFilePerms)
 		return err
 	}
 
